@@ -8,6 +8,34 @@ From Borno Require Import Base Num Token Ast Parser.
 From Borno Require Import ParserEqs ParserMono Grammar ParserSC_Base ParserSound ParserPrefixDefs ParserViableDefs.
 Open Scope nat_scope.
 
+(** * An expression function issues at most one diagnostic, and none on success *)
+
+Definition one {A} (r : pres A) : Prop :=
+  match r with POk _ _ ds => ds = [] | PErr ds => exists d, ds = [d] | PFuel => True end.
+
+Lemma one_bind {A B} (r : pres A) (k : A -> list token -> pres B) :
+  one r -> (forall a rest, one (k a rest)) -> one (pbind r k).
+Proof.
+  destruct r as [a rest ds| ds|]; simpl; auto. intros -> Hk. specialize (Hk a rest).
+  destruct (k a rest) as [b rest' ds'| ds'|]; simpl in *; auto.
+Qed.
+
+Ltac one_leaf :=
+  lazymatch goal with
+  | |- one (POk _ _ _) => reflexivity
+  | |- one (PErr _) => eexists; reflexivity
+  | |- one (Parser.perr_at _ _ _) => eexists; reflexivity
+  | |- one _ => match goal with H : _ |- _ => apply H end
+  end.
+Ltac one_step :=
+  lazymatch goal with
+  | |- one (pbind (match _ with _ => _ end) _) => apply one_bind; [| intros ? ?; cbv beta zeta]
+  | |- one (pbind _ _) => apply one_bind; [one_leaf | intros ? ?; cbv beta zeta]
+  | |- one (match ?x with _ => _ end) => destruct x
+  | |- one _ => one_leaf
+  end.
+Ltac one_all := cbv beta zeta; repeat one_step.
+
 Section Viable.
 Variable eofl : N.
 
@@ -189,13 +217,19 @@ Proof.
       split; [exact W|]. split; [exact Y|]. rewrite is_target_erase. exact T. }
     pose proof (Ie r1') as V2. unfold ParserViableDefs.Via in V2 |- *. cbv beta.
     rewrite E1, pb_ret, EK.
-    assert (FDb : forall d, FDv eofl false C_e (fun g => pexpr g) r1' d ->
-                  FDv eofl false C_e (fun g x => pbind (plevel g ladder x) (assignK g)) ts d).
-    { intros d (pre3 & rem & Er & Ed & _). exists (p1 ++ eq :: pre3), rem.
+    assert (FDb : forall d, FDv eofl false C_e (fun g => pexpr g) f r1' d ->
+                  FDv eofl false C_e (fun g x => pbind (plevel g ladder x) (assignK g)) f ts d).
+    { intros d (pre3 & rem & Er & Ed & N3 & _). exists (p1 ++ eq :: pre3), rem.
       split; [subst ts r1'; rewrite <- app_assoc; reflexivity|]. split; [exact Ed|].
+      split.
+      { intros g rem' Hg S. rewrite <- app_assoc. cbn [app].
+        rewrite R1; [|exact Hg|left; reflexivity]. rewrite pb_ret, EK. apply notclean_bind_l, N3; auto. }
       intros _. right; left. apply Bad. }
     destruct (pexpr f r1') as [v r2 [|d ds]| [|d ds]|] eqn:E2; simpl; auto.
     exists p1, (eq :: r1'). split; [exact Ets|]. split; [reflexivity|].
+    split.
+    { intros g rem' Hg S. same_head S. rewrite R1; [|exact Hg|left; reflexivity]. rewrite pb_ret, EK.
+      destruct (pexpr g r0) as [v' r' ds'| ds'|]; simpl; exact I. }
     intros _. right; right. exists []. split; [constructor|]. intros u Cu.
     exists f, e. intros g Hg. cbn [app]. rewrite R1; [|exact Hg|right; apply C_e_lv, Cu].
     rewrite pb_ret. apply assignK_stop, Cu.
@@ -265,4 +299,327 @@ Proof.
     rewrite punary_S. cbv beta iota. rewrite U. reflexivity.
 Qed.
 
+(** an optional comma-separated list before its closer *)
+Definition optl (close : tkind) (g : nat) (x : list token) : pres (list expr) :=
+  if check close x then POk [] x [] else pargs g x.
+
+Lemma via_optl f close r : (forall ts, Via true C_args (fun g => pargs g) f ts) -> a_stop close = true ->
+  Via false (C_head close) (optl close) f r /\ FN (C_head close) (optl close) [].
+Proof.
+  intros Ia Hcl. split.
+  - destruct (check close r) eqn:Ck.
+    + apply (Via_stop_ok eofl false _ _ []). intros g y [S|Cy]; unfold optl.
+      * rewrite (check_samehead close _ _ S), Ck. reflexivity.
+      * rewrite (C_head_check _ _ Cy). reflexivity.
+    + apply Via_weaken. apply (Via_ext_head eofl false _ _ (fun g => pargs g)).
+      * intros g y _ S. unfold optl. rewrite (check_samehead close _ _ S), Ck. reflexivity.
+      * eapply Via_sub; [|apply Ia]. intros u. apply C_head_args, Hcl.
+  - split; [constructor|]. intros u Cu. exists 0, []. intros g _. unfold optl. cbn [app].
+    rewrite (C_head_check _ _ Cu). reflexivity.
+Qed.
+
+Lemma viaE_pcallloop f : ViaE f -> forall e ts, Via false C_post (fun g => pcallloop g e) (S f) ts.
+Proof.
+  intros (Ie & _ & _ & _ & Ic & Ia & _) e ts. apply Via_shift. destruct ts as [|t r].
+  { apply (Via_stop_ok eofl false _ _ e). intros g y [S|Cy]; [same_head S; reflexivity|apply pcallloop_stop', Cy]. }
+  assert (HZ : forall (k : token -> expr) (t0 : token) u, C_post u -> EvOk (fun g => pcallloop g (k t0)) u u).
+  { intros k t0 u Cu. exists 1, (k t0). intros g Hg. destruct g as [|g]; [lia|]. apply pcallloop_stop', Cu. }
+  destruct (tk t) eqn:Etk;
+    try (apply (Via_stop_ok eofl false _ _ e); intros g y [S|Cy];
+         [same_head S; rewrite pcallloop_S; cbv beta iota; rewrite Etk; reflexivity|apply pcallloop_stop', Cy]).
+  - (* call *)
+    destruct (via_optl f TRIGHT_PAREN r Ia eq_refl) as (VX & FX).
+    destruct (via_then_close eofl false false (C_head TRIGHT_PAREN) C_post (optl TRIGHT_PAREN) TRIGHT_PAREN PRParenAfterArgs
+                (fun args g paren r2 => pcallloop g (ECall e (tline paren) args) r2) f r [] VX FX) as (V & F).
+    + intros u. reflexivity.
+    + intros a paren r2. apply Ic.
+    + intros a t0 u Cu. apply (HZ (fun p => ECall e (tline p) a)), Cu.
+    + apply Via_weaken. eapply (Via_cons eofl false true _ _ _ f t r _); [|exact F|exact V].
+      intros g x. rewrite pcallloop_S. cbv beta iota. rewrite Etk. reflexivity.
+  - (* index *)
+    destruct (via_then_close eofl false true C_e C_post (fun g => pexpr g) TRIGHT_BRACKET PRBracketAfterIndex
+                (fun i g rb r2 => pcallloop g (EIndex e i (tline rb)) r2) f r [idtok] (Ie r) FN_pexpr) as (V & F).
+    + intros u. reflexivity.
+    + intros a paren r2. apply Ic.
+    + intros a t0 u Cu. apply (HZ (fun p => EIndex e a (tline p))), Cu.
+    + apply Via_weaken. eapply (Via_cons eofl false true _ _ _ f t r _); [|exact F|exact V].
+      intros g x. rewrite pcallloop_S. cbv beta iota. rewrite Etk. reflexivity.
+  - (* property *)
+    apply Via_weaken.
+    eapply (Via_cons eofl false true _ _
+              (fun g x => pbind (consume TIDENTIFIER PPropAfterDot x)
+                            (fun nm r1 => pcallloop g (EProp e (tlex nm) (tline nm)) r1)) f t r [idtok]).
+    + intros g x. rewrite pcallloop_S. cbv beta iota. rewrite Etk. reflexivity.
+    + split; [apply online1; reflexivity|]. intros u Cu. exists 1. eexists. intros g Hg.
+      destruct g as [|g]; [lia|]. cbn [app]. rewrite (consume_hit eofl TIDENTIFIER _ idtok u eq_refl), pb_ret.
+      apply pcallloop_stop', Cu.
+    + apply (Via_bind eofl false true false C_any C_post (fun _ x => consume TIDENTIFIER PPropAfterDot x)
+               (fun g nm r1 => pcallloop g (EProp e (tlex nm) (tline nm)) r1) f r []).
+      * apply Via_consume.
+      * intros nm r1 _ _. apply Ic.
+      * right. intros; exact I.
+      * apply (FNw_pcallloop C_any (fun nm => EProp e (tlex nm) (tline nm))). intros; exact I.
+Qed.
+
+Lemma viaE_pargs f : ViaE f -> forall ts, Via true C_args (fun g => pargs g) (S f) ts.
+Proof.
+  intros (Ie & _ & _ & _ & _ & Ia & _) ts. apply Via_shift.
+  eapply Via_ext_all; [intros g y; rewrite pargs_S; reflexivity|]. cbv beta.
+  apply (Via_bind eofl false true false C_e C_args (fun g => pexpr g)
+           (fun g a r => if check TCOMMA r then pbind (pargs g (tl r)) (fun more r' => POk (a :: more) r' [])
+                         else POk [a] r []) f ts []).
+  - apply Ie.
+  - intros a r1 _ _. destruct (check TCOMMA r1) eqn:Cm.
+    + destruct r1 as [|tc r']; [discriminate Cm|]. apply Via_weaken.
+      eapply (Via_cons eofl false true _ _ (fun g x => pbind (pargs g x) (fun more r' => POk (a :: more) r' [])) f tc r' [idtok]).
+      * intros g x. change (check TCOMMA (tc :: x)) with (check TCOMMA (tc :: r')). rewrite Cm. reflexivity.
+      * apply (FN_map eofl C_args (fun g => pargs g) (fun more => a :: more)), FN_pargs.
+      * apply (Via_map eofl false true C_args (fun g => pargs g) (fun more => a :: more)), Ia.
+    + apply (Via_stop_ok eofl false _ _ [a]). intros g y [S|Cy].
+      * rewrite (check_samehead TCOMMA _ _ S), Cm. reflexivity.
+      * rewrite (C_args_not_comma _ Cy). reflexivity.
+  - right. apply C_args_e.
+  - split; [constructor|]. intros u Cu. split; [apply C_args_e, Cu|].
+    intros a. exists 0, [a]. intros g _. cbn [app]. rewrite (C_args_not_comma _ Cu). reflexivity.
+Qed.
+
+Lemma pprops_stop g acc u : C_props u -> pprops (S g) acc u = POk acc u [].
+Proof.
+  intros H. rewrite pprops_S. destruct u as [|t r]; [reflexivity|]. simpl in H. rewrite H, tkind_eqb_refl. reflexivity.
+Qed.
+
+Lemma EvOk_ret {A} (a : A) u : EvOk (fun _ x => POk a x []) u u.
+Proof. exists 0, a. reflexivity. Qed.
+
+Lemma viaE_pprimary f : ViaE f -> forall ts, Via true C_any (fun g => pprimary g) (S f) ts.
+Proof.
+  intros (Ie & _ & _ & _ & _ & Ia & _ & Ipp) ts. apply Via_shift. destruct ts as [|t r].
+  { apply (Via_fail_now eofl false _ _ _ _ _ PExpectExpr). intros g y S. same_head S. reflexivity. }
+  destruct (tk t) eqn:Etk;
+    try (apply (Via_fail_now eofl false _ _ _ _ _ PExpectExpr); intros g y S; same_head S;
+         rewrite pprimary_S; cbv beta iota; rewrite Etk; reflexivity);
+    try (eapply (Via_cons eofl false false C_any _ (fun _ x => POk _ x []) f t r []);
+         [intros g x; rewrite pprimary_S; cbv beta iota; rewrite Etk; reflexivity|apply FN_ret|apply Via_ret; reflexivity]).
+  - (* group *)
+    destruct (via_then_close eofl false true C_e C_any (fun g => pexpr g) TRIGHT_PAREN PRParenAfterExpr
+                (fun e _ rp r2 => POk (EGroup e (tline rp)) r2 []) f r [idtok] (Ie r) FN_pexpr) as (V & F).
+    + intros u. reflexivity.
+    + intros a paren r2. apply Via_ret. reflexivity.
+    + intros a t0 u _. apply EvOk_ret.
+    + eapply (Via_cons eofl false true _ _ _ f t r _); [|exact F|exact V].
+      intros g x. rewrite pprimary_S. cbv beta iota. rewrite Etk. reflexivity.
+  - (* object *)
+    destruct (via_then_close eofl false false C_props C_any (fun g => pprops g []) TRIGHT_BRACE PRBraceAfterObject
+                (fun ps _ _ r2 => POk (EObject ps) r2 []) f r [] (Ipp [] r)) as (V & F).
+    + split; [constructor|]. intros u Cu. exists 1, []. intros g Hg. destruct g as [|g]; [lia|]. apply pprops_stop, Cu.
+    + intros u. reflexivity.
+    + intros a paren r2. apply Via_ret. reflexivity.
+    + intros a t0 u _. apply EvOk_ret.
+    + eapply (Via_cons eofl false true _ _ _ f t r _); [|exact F|exact V].
+      intros g x. rewrite pprimary_S. cbv beta iota. rewrite Etk. reflexivity.
+  - (* array *)
+    destruct (via_optl f TRIGHT_BRACKET r Ia eq_refl) as (VX & FX).
+    destruct (via_then_close eofl false false (C_head TRIGHT_BRACKET) C_any (optl TRIGHT_BRACKET) TRIGHT_BRACKET PRBracketAfterElems
+                (fun es _ _ r2 => POk (EArray es) r2 []) f r [] VX FX) as (V & F).
+    + intros u. reflexivity.
+    + intros a paren r2. apply Via_ret. reflexivity.
+    + intros a t0 u _. apply EvOk_ret.
+    + eapply (Via_cons eofl false true _ _ _ f t r _); [|exact F|exact V].
+      intros g x. rewrite pprimary_S. cbv beta iota. rewrite Etk. reflexivity.
+Qed.
+
+(** the tail of an object entry, after its value *)
+Definition propsK (acc : list (list N * expr)) (nm : token) (g : nat) (v : expr) (r3 : list token) : pres (list (list N * expr)) :=
+  if check TCOMMA r3 then pprops g (props_put acc (tlex nm) v) (tl r3) else POk (props_put acc (tlex nm) v) r3 [].
+
+Lemma propsK_stop acc nm g v u : C_props u -> propsK acc nm g v u = POk (props_put acc (tlex nm) v) u [].
+Proof. intros H. unfold propsK. rewrite (C_args_not_comma _ (C_props_args _ H)). reflexivity. Qed.
+
+Lemma viaE_pprops f : ViaE f -> forall acc ts, Via false C_props (fun g => pprops g acc) (S f) ts.
+Proof.
+  intros (Ie & _ & _ & _ & _ & _ & _ & Ipp) acc ts. apply Via_shift. destruct ts as [|t r].
+  { apply (Via_stop_ok eofl false _ _ acc). intros g y [S|Cy]; [same_head S; reflexivity|apply pprops_stop, Cy]. }
+  destruct (tkind_eqb (tk t) TRIGHT_BRACE) eqn:E.
+  { apply (Via_stop_ok eofl false _ _ acc). intros g y [S|Cy]; [|apply pprops_stop, Cy].
+    same_head S. rewrite pprops_S. cbv beta iota. rewrite E. reflexivity. }
+  pose (F := fun g x =>
+    pbind (consume TIDENTIFIER PPropName x) (fun nm r1 =>
+    pbind (consume TCOLON PColonAfterProp r1) (fun _c r2 =>
+    pbind (pexpr g r2) (propsK acc nm g)))).
+  apply Via_weaken. apply (Via_ext_head eofl false _ _ F).
+  { intros g y _ S. same_head S. rewrite pprops_S. cbv beta iota. rewrite E. reflexivity. }
+  (* the value and what follows it *)
+  assert (HV : forall nm r2, Via true C_props (fun g x => pbind (pexpr g x) (propsK acc nm g)) f r2).
+  { intros nm r2.
+    apply (Via_bind eofl false true false C_e C_props (fun g => pexpr g) (fun g v r3 => propsK acc nm g v r3) f r2 []).
+    - apply Ie.
+    - intros v r3 _ _. destruct (check TCOMMA r3) eqn:Cm.
+      + destruct r3 as [|tc r']; [discriminate Cm|]. apply Via_weaken.
+        eapply (Via_cons eofl false false _ _ (fun g x => pprops g (props_put acc (tlex nm) v) x) f tc r' []).
+        * intros g x. unfold propsK. change (check TCOMMA (tc :: x)) with (check TCOMMA (tc :: r')). rewrite Cm. reflexivity.
+        * split; [constructor|]. intros u Cu. exists 1. eexists. intros g Hg. destruct g as [|g]; [lia|]. apply pprops_stop, Cu.
+        * apply Ipp.
+      + apply (Via_stop_ok eofl false _ _ (props_put acc (tlex nm) v)). intros g y [S|Cy]; [|apply propsK_stop, Cy].
+        unfold propsK. rewrite (check_samehead TCOMMA _ _ S), Cm. reflexivity.
+    - right. intros u Cu. apply C_args_e, C_props_args, Cu.
+    - split; [constructor|]. intros u Cu. split; [apply C_args_e, C_props_args, Cu|].
+      intros v. exists 0. eexists. intros g _. apply propsK_stop, Cu. }
+  assert (HVn : forall nm u, C_props u -> EvOk (fun g x => pbind (pexpr g x) (propsK acc nm g)) ([idtok] ++ u) u).
+  { intros nm u Cu. exists 15. eexists. intros g Hg. cbn [app].
+    rewrite id_pexpr; [|apply C_args_e, C_props_args, Cu|exact Hg]. rewrite pb_ret. apply propsK_stop, Cu. }
+  unfold F.
+  apply (Via_bind eofl false true true C_any C_props (fun _ x => consume TIDENTIFIER PPropName x)
+           (fun g nm r1 => pbind (consume TCOLON PColonAfterProp r1) (fun _c r2 => pbind (pexpr g r2) (propsK acc nm g)))
+           f (t :: r) [mk TCOLON; idtok]).
+  - apply Via_consume.
+  - intros nm r1 _ _.
+    apply (Via_bind eofl false true true C_any C_props (fun _ x => consume TCOLON PColonAfterProp x)
+             (fun g _c r2 => pbind (pexpr g r2) (propsK acc nm g)) f r1 [idtok]).
+    + apply Via_consume.
+    + intros c r2 _ _. apply HV.
+    + left. reflexivity.
+    + split; [apply online1; reflexivity|]. intros u Cu. split; [exact I|]. intros c. apply HVn, Cu.
+  - left. reflexivity.
+  - apply (FNw_consume eofl C_any C_props TCOLON PColonAfterProp
+             (fun nm g _c r2 => pbind (pexpr g r2) (propsK acc nm g)) (mk TCOLON) [idtok]).
+    + reflexivity.
+    + reflexivity.
+    + apply online1. reflexivity.
+    + intros; exact I.
+    + intros nm c u Cu. apply HVn, Cu.
+Qed.
+
+Theorem viaE : forall f, ViaE f.
+Proof.
+  induction f as [|f IH].
+  { unfold ViaE. split; [|split; [|split; [|split; [|split; [|split; [|split]]]]]]; intros; apply Via_fuel; reflexivity. }
+  unfold ViaE. split; [|split; [|split; [|split; [|split; [|split; [|split]]]]]].
+  - apply viaE_pexpr, IH.
+  - apply viaE_plevel, IH.
+  - apply viaE_ploop, IH.
+  - apply viaE_punary, IH.
+  - apply viaE_pcallloop, IH.
+  - apply viaE_pargs, IH.
+  - apply viaE_pprimary, IH.
+  - apply viaE_pprops, IH.
+Qed.
+
+Lemma consume_one k pk ts : one (consume k pk ts).
+Proof.
+  unfold Parser.consume. destruct ts as [|t r]; [eexists; reflexivity|].
+  destruct (tkind_eqb (tk t) k); [reflexivity|eexists; reflexivity].
+Qed.
+
+Lemma expr_one_all : forall f,
+  (forall ts, one (pexpr f ts)) /\
+  (forall lv ts, one (plevel f lv ts)) /\
+  (forall l lv e ts, one (ploop f l lv e ts)) /\
+  (forall ts, one (punary f ts)) /\
+  (forall e ts, one (pcallloop f e ts)) /\
+  (forall ts, one (pargs f ts)) /\
+  (forall ts, one (pprimary f ts)) /\
+  (forall acc ts, one (pprops f acc ts)).
+Proof.
+  induction f as [|f (Ie & Il & Ilo & Iu & Ic & Ia & Ipr & Ipp)].
+  - split; [|split; [|split; [|split; [|split; [|split; [|split]]]]]]; intros; exact I.
+  - pose proof consume_one as Hcons.
+    split; [|split; [|split; [|split; [|split; [|split; [|split]]]]]].
+    + intros ts. rewrite pexpr_S. one_all.
+    + intros lv ts. rewrite plevel_S. one_all.
+    + intros l lv e ts. rewrite ploop_S. one_all.
+    + intros ts. rewrite punary_S. one_all.
+    + intros e ts. rewrite pcallloop_S. one_all.
+    + intros ts. rewrite pargs_S. one_all.
+    + intros ts. rewrite pprimary_S. one_all.
+    + intros acc ts. rewrite pprops_S. one_all.
+Qed.
+
+Lemma pexpr_one f ts : one (pexpr f ts).
+Proof. apply (expr_one_all f). Qed.
+
+(** * The expression-level theorem
+
+    When [pexpr] fails, its (only) diagnostic [d] was issued after consuming
+    [pre], looking at the head of [rem] (for [PInvalidAssign]: at the [=]).  Then
+    [pre] is a viable prefix -- some completion [w], all on the end-of-input line,
+    makes [pre ++ w] an accepted expression -- unless [pre] contains an assignment
+    to a left side that is not assignable. *)
+Theorem pexpr_viable f ts ds :
+  pexpr f ts = PErr ds ->
+  exists d pre rem, ds = [d] /\ ts = pre ++ rem /\ d = diag_at rem (pd_kind d) /\
+    (BadAssign pre \/ exists w, online w /\ exists f' e, pexpr f' (pre ++ w) = POk e [] []).
+Proof.
+  intros E. pose proof (pexpr_one f ts) as O. rewrite E in O. destruct O as (d & ->).
+  destruct (viaE f) as (Ie & _). specialize (Ie ts). unfold ParserViableDefs.Via in Ie. rewrite E in Ie.
+  destruct Ie as (pre & rem & Ets & Ed & H). exists d, pre, rem. split; [reflexivity|]. split; [exact Ets|]. split; [exact Ed|].
+  destruct pre as [|t0 pre'].
+  - right. exists [idtok]. split; [apply online1; reflexivity|]. exists 15, idE. apply id_pexpr; [exact I|apply le_n].
+  - destruct (H ltac:(discriminate)) as [(L & _)|[B|(w & Ow & Hc)]]; [discriminate L|left; exact B|right].
+    exists w. split; [exact Ow|]. destruct (Hc [] I) as (g0 & e & R). exists g0, e.
+    specialize (R g0 (le_n _)). rewrite app_nil_r in R. exact R.
+Qed.
+
+(** the same for a run that ends with its first token: nothing was consumed *)
+Corollary pexpr_viable_token f ts ds :
+  pexpr f ts = PErr ds ->
+  exists d, ds = [d] /\
+    ((exists pre, ts = pre /\ pd_where d = None /\
+        (BadAssign pre \/ exists w, online w /\ exists f' e, pexpr f' (pre ++ w) = POk e [] [])) \/
+     (exists pre t w0, ts = pre ++ t :: w0 /\ d = diag_tok t (pd_kind d) /\
+        (BadAssign pre \/ exists w, online w /\ exists f' e, pexpr f' (pre ++ w) = POk e [] []))).
+Proof.
+  intros E. destruct (pexpr_viable f ts ds E) as (d & pre & rem & -> & -> & Ed & H). exists d. split; [reflexivity|].
+  destruct rem as [|t w0].
+  - left. exists pre. rewrite app_nil_r. split; [reflexivity|]. split; [rewrite Ed; reflexivity|exact H].
+  - right. exists pre, t, w0. split; [reflexivity|]. split; [exact Ed|exact H].
+Qed.
+
 End Viable.
+
+(** * Examples (end-of-input line 1) *)
+
+Definition vx_tok (k : tkind) (lex : list N) : token := mkTok k lex LNone 1%N.
+Definition vx_id := vx_tok TIDENTIFIER [102%N].          (* f *)
+Definition vx_lp := vx_tok TLEFT_PAREN [40%N].
+Definition vx_rp := vx_tok TRIGHT_PAREN [41%N].
+Definition vx_lb := vx_tok TLEFT_BRACKET [91%N].
+Definition vx_rb := vx_tok TRIGHT_BRACKET [93%N].
+Definition vx_plus := vx_tok TPLUS [43%N].
+Definition vx_semi := vx_tok TSEMICOLON [59%N].
+Definition vx_eq := vx_tok TEQUAL [61%N].
+Definition vx_comma := vx_tok TCOMMA [44%N].
+
+(** [f ( f + ;]: the parser stops at the [;]; the prefix [f ( f +] is completed by [x )] *)
+Example vx_fails : pexpr 1%N 100 ([vx_id; vx_lp; vx_id; vx_plus] ++ [vx_semi]) = PErr [diag_tok vx_semi PExpectExpr].
+Proof. vm_compute. reflexivity. Qed.
+Example vx_completed :
+  exists e, pexpr 1%N 100 ([vx_id; vx_lp; vx_id; vx_plus] ++ [idtok 1%N; mk 1%N TRIGHT_PAREN]) = POk e [] [].
+Proof. eexists. vm_compute. reflexivity. Qed.
+
+(** [f [ f , ]]: an index takes one expression; the prefix [f [ f] is completed by []] *)
+Example vx_fails2 : pexpr 1%N 100 ([vx_id; vx_lb; vx_id] ++ [vx_comma; vx_rb]) = PErr [diag_tok vx_comma PRBracketAfterIndex].
+Proof. vm_compute. reflexivity. Qed.
+Example vx_completed2 : exists e, pexpr 1%N 100 ([vx_id; vx_lb; vx_id] ++ [mk 1%N TRIGHT_BRACKET]) = POk e [] [].
+Proof. eexists. vm_compute. reflexivity. Qed.
+
+(** the late diagnostic: [( f ) = f] is reported at the [=] after the right side
+    has been read; the tokens before the [=] are an accepted expression *)
+Example vx_fails3 : pexpr 1%N 100 ([vx_lp; vx_id; vx_rp] ++ [vx_eq; vx_id]) = PErr [diag_tok vx_eq PInvalidAssign].
+Proof. vm_compute. reflexivity. Qed.
+Example vx_completed3 : exists e, pexpr 1%N 100 ([vx_lp; vx_id; vx_rp] ++ []) = POk e [] [].
+Proof. eexists. vm_compute. reflexivity. Qed.
+(** ... but an error to the right of such an [=] is diagnosed where no completion exists:
+    [( f ) = +] fails at [+], and nothing that starts with [( f ) =] is accepted *)
+Example vx_fails4 : pexpr 1%N 100 ([vx_lp; vx_id; vx_rp; vx_eq] ++ [vx_plus]) = PErr [diag_tok vx_plus PExpectExpr].
+Proof. vm_compute. reflexivity. Qed.
+Example vx_bad4 : BadAssign [vx_lp; vx_id; vx_rp; vx_eq].
+Proof.
+  exists [], [vx_lp; vx_id; vx_rp], vx_eq, [], (EGroup (EId [102%N] 0%N) 0%N).
+  split; [reflexivity|]. split; [reflexivity|]. split; [constructor; apply WF_level; constructor|].
+  split; [|reflexivity]. apply (Y_group (EId [102%N] 0%N) 0%N [SymId [102%N]]). constructor.
+Qed.
+
+Check pexpr_viable.
+Check pexpr_viable_token.
+Print Assumptions viaE.
+Print Assumptions pexpr_viable.
